@@ -77,6 +77,15 @@ var instCounter int
 
 // startInst starts a server on dir with the shrink gate socket configured.
 func startInst(work, dir string) *inst {
+	in, err := startInstE(work, dir)
+	if err != nil {
+		panic(err.Error())
+	}
+	return in
+}
+
+// startInstE is startInst that reports a server that does not come up instead of panicking.
+func startInstE(work, dir string) (*inst, error) {
 	instCounter++
 	sock := filepath.Join(work, fmt.Sprintf("g%d.sock", instCounter))
 	os.Setenv("VERIF_SHRINK_SOCK", sock)
@@ -84,7 +93,10 @@ func startInst(work, dir string) *inst {
 	s, err := srv.Start(dir)
 	os.Unsetenv("VERIF_SHRINK_SOCK")
 	if err != nil {
-		panic(fmt.Sprintf("server start on %s: %v", dir, err))
+		if s != nil && s.Alive() {
+			s.Kill()
+		}
+		return nil, fmt.Errorf("server start on %s: %v", dir, err)
 	}
 	in := &inst{s: s, dir: dir, sock: sock, c: s.MustDial()}
 	for i := 0; i < 200; i++ {
@@ -99,7 +111,7 @@ func startInst(work, dir string) *inst {
 		s.Kill()
 		panic("gate socket did not come up (server not built with -tags verif?)")
 	}
-	return in
+	return in, nil
 }
 
 func (in *inst) close() {
@@ -668,9 +680,9 @@ func genWrite(rng *rand.Rand, cur cursorInfo, known []string, hookNames []string
 		return []string{"PERSIST", k, id}
 	case 16, 17:
 		// JSET on a plain path; creates the document if missing
-		return []string{"JSET", k, id, []string{"a", "b.c", "name", "arr.0", "deep.x.y"}[rng.Intn(5)], []string{"1", "two", `{"z":1}`, "true", "3.5"}[rng.Intn(5)]}
+		return []string{"JSET", k, id, []string{"a", "b.c", "name", "arr.0", "deep.x.y", "arr.-1"}[rng.Intn(6)], []string{"1", "two", `{"z":1}`, "true", "3.5"}[rng.Intn(5)]}
 	case 18:
-		return []string{"JDEL", k, id, []string{"a", "b.c", "name", "deep.x"}[rng.Intn(4)]}
+		return []string{"JDEL", k, id, []string{"a", "b.c", "name", "deep.x", "arr.0", "arr.1"}[rng.Intn(6)]}
 	case 19:
 		return genHook(rng, rng.Intn(7), false)
 	case 20:
@@ -807,45 +819,6 @@ func relevant(log []sent, lines []string) []sent {
 
 // ---------------------------------------------------------------- scenario: model schedules (correspondence)
 
-type mcmd struct {
-	op      string // set del drop rename flushdb
-	a, b, v string
-}
-
-func (m mcmd) real() []string {
-	switch m.op {
-	case "set":
-		return []string{"SET", m.a, m.b, "STRING", m.v}
-	case "del":
-		return []string{"DEL", m.a, m.b}
-	case "drop":
-		return []string{"DROP", m.a}
-	case "rename":
-		return []string{"RENAME", m.a, m.b}
-	case "aofshrink":
-		return []string{"AOFSHRINK"}
-	}
-	return []string{"FLUSHDB"}
-}
-
-func (m mcmd) model() []string {
-	switch m.op {
-	case "set":
-		return []string{"w", "set", model.H(m.a), model.H(m.b), model.H(m.v)}
-	case "del":
-		return []string{"w", "del", model.H(m.a), model.H(m.b)}
-	case "drop":
-		return []string{"w", "drop", model.H(m.a)}
-	case "rename":
-		return []string{"w", "rename", model.H(m.a), model.H(m.b)}
-	case "aofshrink":
-		return []string{"req"}
-	}
-	return []string{"w", "flushdb"}
-}
-
-func (m mcmd) String() string { return strings.Join(qcmd(m.real()), " ") }
-
 // a schedule: writer commands before every step (index = number of steps already taken)
 type schedule struct {
 	Init   []mcmd
@@ -858,6 +831,9 @@ type schedule struct {
 }
 
 var crashPoints []string
+
+// Before[slotFinal]: writers issued while the rewrite is parked before its final section
+const slotFinal = 1000000
 
 // dead releases what is left of an instance whose process has died.
 func (in *inst) dead() {
@@ -872,58 +848,6 @@ func (in *inst) dead() {
 	os.Remove(in.sock)
 }
 
-func kvDump(c *srv.Conn) string {
-	var lines []string
-	for _, k := range knownKeys(c) {
-		v := c.MustDo("SCAN", k, "LIMIT", "100000000")
-		if len(v.Array) == 2 {
-			for _, o := range v.Array[1].Array {
-				if len(o.Array) >= 2 {
-					lines = append(lines, model.H(k)+" "+model.H(o.Array[0].Str)+" "+model.H(o.Array[1].Str))
-				}
-			}
-		}
-	}
-	sort.Strings(lines)
-	return strings.Join(lines, ",")
-}
-
-func sortedModelDump(s string) string {
-	if s == "-" {
-		return ""
-	}
-	l := strings.Split(s, ",")
-	sort.Strings(l)
-	return strings.Join(l, ",")
-}
-
-func recStr(rec []string) string {
-	if len(rec) == 0 {
-		return "?"
-	}
-	switch strings.ToLower(rec[0]) {
-	case "set":
-		if len(rec) == 5 && strings.ToLower(rec[3]) == "string" {
-			return "set " + model.H(rec[1]) + " " + model.H(rec[2]) + " " + model.H(rec[4])
-		}
-	case "del":
-		if len(rec) == 3 {
-			return "del " + model.H(rec[1]) + " " + model.H(rec[2])
-		}
-	case "drop":
-		if len(rec) == 2 {
-			return "drop " + model.H(rec[1])
-		}
-	case "rename":
-		if len(rec) == 3 {
-			return "rename " + model.H(rec[1]) + " " + model.H(rec[2])
-		}
-	case "flushdb":
-		return "flushdb"
-	}
-	return "?" + strings.Join(qcmd(rec), " ")
-}
-
 // playSchedule runs one model schedule on the server and on the model. Returns whether the oracle
 // held, and what the model predicted for it.
 func playSchedule(r *hx.Result, cfg hx.Config, drv *model.Driver, sc schedule, idx int) {
@@ -934,6 +858,7 @@ func playSchedule(r *hx.Result, cfg hx.Config, drv *model.Driver, sc schedule, i
 	drv.Ask("new")
 	caseDesc := map[string]interface{}{"scenario": "model-schedule", "name": sc.name, "index": idx}
 	var trace []string
+	var issued []mcmd // every writer command in the order it was sent
 	apply := func(m mcmd, at string) bool {
 		v := in.c.MustDo(m.real()...)
 		mo := drv.Ask(m.model()...)
@@ -941,6 +866,10 @@ func playSchedule(r *hx.Result, cfg hx.Config, drv *model.Driver, sc schedule, i
 		switch {
 		case v.IsErr() && strings.Contains(v.Str, "key not found"):
 			impl = "err:keynotfound"
+		case v.IsErr() && strings.Contains(v.Str, "id not found"):
+			impl = "err:idnotfound"
+		case v.IsErr() && strings.Contains(v.Str, "cannot share the same name"):
+			impl = "fatal"
 		case v.IsErr():
 			impl = "err:" + v.Str
 		case v.Kind == ':' && v.Int == 0:
@@ -951,6 +880,7 @@ func playSchedule(r *hx.Result, cfg hx.Config, drv *model.Driver, sc schedule, i
 			impl = "ignored"
 		}
 		trace = append(trace, at+" "+m.String()+" -> "+impl)
+		issued = append(issued, m)
 		if impl != mo {
 			caseDesc["trace"] = clip(trace, 60)
 			r.Fail(hx.Failure{Kind: "correspondence", Signature: "shrink-model-command-outcome", What: "writer command outcome differs: " + m.String(), Case: caseDesc, Impl: impl, Model: mo})
@@ -967,7 +897,7 @@ func playSchedule(r *hx.Result, cfg hx.Config, drv *model.Driver, sc schedule, i
 	if sc.CrashFirst != "" {
 		cp := sc.CrashFirst
 		caseDesc["crash_first"] = cp
-		pre := kvDump(in.c)
+		pre := objDump(in.c)
 		_, e := in.shrinkWith("final", func(ev event) bool {
 			if ev.kind == "final" {
 				in.g.ask("crash " + cp)
@@ -988,7 +918,7 @@ func playSchedule(r *hx.Result, cfg hx.Config, drv *model.Driver, sc schedule, i
 		if len(want) == 2 {
 			leftoverWant = want[1]
 		}
-		if rec := kvDump(in.c); rec != pre {
+		if rec := objDump(in.c); rec != pre {
 			a, b := diffLines(strings.ReplaceAll(pre, ",", "\n"), strings.ReplaceAll(rec, ",", "\n"))
 			r.Fail(hx.Failure{Kind: "oracle", Signature: "shrink-crash-" + cp, What: "after a crash at " + cp + " a restart does not recover the acknowledged dataset: missing " + unhexLines(clip(a, 4)) + " extra " + unhexLines(clip(b, 4)), Case: caseDesc})
 			return
@@ -1016,7 +946,7 @@ func playSchedule(r *hx.Result, cfg hx.Config, drv *model.Driver, sc schedule, i
 				}
 			}
 			return true
-		case "keys", "ids":
+		case "keys", "ids", "hooknames", "hook":
 			want := ev.kind + " " + model.H(ev.a) + " " + model.H(ev.b)
 			if mgate != want {
 				gateMismatch = append(gateMismatch, fmt.Sprintf("step %d: server parked at %q, model at %q", step, want, mgate))
@@ -1033,15 +963,15 @@ func playSchedule(r *hx.Result, cfg hx.Config, drv *model.Driver, sc schedule, i
 			mgate = drv.Ask("step")
 			step++
 			return true
-		case "hooknames":
-			if mgate != "scandone" {
-				gateMismatch = append(gateMismatch, fmt.Sprintf("server finished the scan after %d steps, model is at %q", step, mgate))
+		case "final":
+			if mgate != "final - -" {
+				gateMismatch = append(gateMismatch, fmt.Sprintf("server reached the final section after %d steps, model is at %q", step, mgate))
 				return false
 			}
-			for _, m := range sc.Before[1000000] {
+			for _, m := range sc.Before[slotFinal] {
 				nw++
 				hasRename = hasRename || m.op == "rename"
-				if !apply(m, "after scan") {
+				if !apply(m, "before the final section") {
 					return false
 				}
 			}
@@ -1065,25 +995,73 @@ func playSchedule(r *hx.Result, cfg hx.Config, drv *model.Driver, sc schedule, i
 	if got := dirState(dir); leftoverWant != "" && got != leftoverWant {
 		r.Fail(hx.Failure{Kind: "correspondence", Signature: "shrink-model-crash-dir", What: "files present after a complete rewrite on the leftovers of a crash at " + sc.CrashFirst + " differ from the model's", Case: caseDesc, Impl: got, Model: leftoverWant})
 	}
-	// file records
+	// file records: the object snapshot and the hook snapshot in canonical text (TTL digits
+	// dropped), then the shrinklog: the logged commands exactly as they were sent
 	recs, rerr := readAOF(filepath.Join(dir, "appendonly.aof"))
-	var implRecs []string
-	for _, rec := range recs {
-		implRecs = append(implRecs, recStr(rec))
-	}
-	mout, mlog := drv.Ask("out"), drv.Ask("log")
 	var modelRecs []string
-	for _, s := range []string{mout, mlog} {
+	for _, s := range []string{drv.Ask("out"), drv.Ask("hout")} {
 		if s != "-" {
 			modelRecs = append(modelRecs, strings.Split(s, ",")...)
 		}
 	}
-	live := kvDump(in.c)
+	nsnap := len(modelRecs)
+	if mlog := drv.Ask("log"); mlog != "-" {
+		// the model's log is a subsequence of the issued commands (the updated ones)
+		j := 0
+		for _, want := range strings.Split(mlog, ",") {
+			for j < len(issued) && issued[j].canon() != want {
+				j++
+			}
+			if j == len(issued) {
+				modelRecs = append(modelRecs, "?model logged a command that was never issued: "+want)
+				break
+			}
+			modelRecs = append(modelRecs, strings.Join(qcmd(issued[j].real()), " "))
+			j++
+		}
+	}
+	var implRecs []string
+	for i, rec := range recs {
+		if i < nsnap {
+			// TTL digits: every deadline of these schedules was set to 1000 s a moment ago; the
+			// snapshot may shorten it by the elapsed time plus less than 0.1 s (objects: floored to
+			// tenths; hooks: rounded to tenths), never lengthen it
+			if ttl, ok := recTTL(rec); ok {
+				t, err := strconv.ParseFloat(ttl, 64)
+				dot := strings.IndexByte(ttl, '.')
+				if err != nil || t > 1000.05 || t < 1000-120 || (dot >= 0 && len(ttl)-dot-1 > 1) {
+					r.Fail(hx.Failure{Kind: "oracle", Signature: "shrink-ttl-digits", What: "snapshot record carries a TTL outside (elapsed + 0.1 s) of the remaining time, or with more than one decimal: " + strings.Join(qcmd(rec), " "), Case: caseDesc})
+				}
+			}
+			implRecs = append(implRecs, recCanon(rec))
+		} else {
+			implRecs = append(implRecs, strings.Join(qcmd(rec), " "))
+		}
+	}
+	live := objDump(in.c)
 	mlive := sortedModelDump(drv.Ask("live"))
 	mrep := sortedModelDump(drv.Ask("replayed"))
+	hlive := hookDump(in.c)
+	mhlive := sortedModelDump(drv.Ask("hlive"))
+	mhrep := sortedModelDump(drv.Ask("hreplayed"))
+	mhrepOrig := drv.Ask("hreplayed_orig") // "fatal": the pinned loader would refuse the file
 	in.stop()
-	in2 := startInst(cfg.Work, dir)
-	restarted := kvDump(in2.c)
+	in2, serr := startInstE(cfg.Work, dir)
+	if serr != nil {
+		// the server refuses to load the file it has just written
+		sig := "shrink-new-file-does-not-load"
+		if mhrepOrig == "fatal" && live == mlive && hlive == mhlive {
+			// exactly what the model predicts: a name that changed between hook and channel
+			sig = "shrink-hook-kind-switch-fatal"
+		}
+		caseDesc["trace"] = clip(trace, 80)
+		r.Count("model/"+sc.name+"/nostart", true)
+		r.Fail(hx.Failure{Kind: "oracle", Signature: sig, What: "after AOFSHRINK (" + sc.name + ") the server does not start on the new file: " + lastLines(serr.Error(), 300), Case: caseDesc, Model: map[string]interface{}{"model_hooks_replay_pinned_loader": mhrepOrig}})
+		in = &inst{s: in.s, dir: dir}
+		return
+	}
+	restarted := objDump(in2.c)
+	hrestarted := hookDump(in2.c)
 	in = in2
 	r.Count("model/"+sc.name+"/"+strconv.Itoa(step)+"/"+strconv.Itoa(nw)+"/"+strconv.Itoa(len(implRecs)), nw > 0 && step > 2)
 	r.Dist("scenario:model-schedule")
@@ -1102,6 +1080,16 @@ func playSchedule(r *hx.Result, cfg hx.Config, drv *model.Driver, sc schedule, i
 	if restarted != mrep {
 		r.Fail(hx.Failure{Kind: "correspondence", Signature: "shrink-model-replayed", What: "dataset after restart differs from the model's replay of the new file", Case: caseDesc, Impl: restarted, Model: mrep})
 	}
+	if hlive != mhlive {
+		r.Fail(hx.Failure{Kind: "correspondence", Signature: "shrink-model-hooks-live", What: "live hooks/channels differ from the model's registry", Case: caseDesc, Impl: hlive, Model: mhlive})
+	}
+	if hrestarted != mhrep {
+		r.Fail(hx.Failure{Kind: "correspondence", Signature: "shrink-model-hooks-replayed", What: "hooks/channels after restart differ from the model's replay of the new file", Case: caseDesc, Impl: hrestarted, Model: mhrep})
+	}
+	if hlive != hrestarted {
+		a, b := diffLines(strings.ReplaceAll(hlive, ",", "\n"), strings.ReplaceAll(hrestarted, ",", "\n"))
+		r.Fail(hx.Failure{Kind: "oracle", Signature: "shrink-hooks-restart-mismatch", What: "hooks/channels after restart differ from the live ones (" + sc.name + "): live-only " + unhexLines(clip(a, 3)) + " restart-only " + unhexLines(clip(b, 3)), Case: caseDesc})
+	}
 	if live != restarted {
 		sig := "shrink-concurrent-restart-mismatch"
 		if sc.CrashFirst != "" {
@@ -1118,6 +1106,13 @@ func playSchedule(r *hx.Result, cfg hx.Config, drv *model.Driver, sc schedule, i
 		}
 		r.Fail(hx.Failure{Kind: "oracle", Signature: sig, What: "dataset after restart differs from the live dataset (" + sc.name + "): live-only " + unhexLines(clip(a, 4)) + " restart-only " + unhexLines(clip(b, 4)), Case: caseDesc, Impl: map[string]interface{}{"only_live": clip(a, 8), "only_after_restart": clip(b, 8)}, Model: map[string]interface{}{"model_predicts_mismatch": mlive != mrep}})
 	}
+}
+
+func lastLines(s string, n int) string {
+	if len(s) > n {
+		s = s[len(s)-n:]
+	}
+	return strings.Join(strings.Fields(s), " ")
 }
 
 func unhexLines(l []string) string {
@@ -1179,12 +1174,54 @@ func witnessSchedules() []schedule {
 		}
 	}
 	d.Before = map[int][]mcmd{
-		-1:      {{op: "set", a: "a", b: "i9", v: "w0"}},
-		2:       {{op: "set", a: "a", b: "i1", v: "w1"}, {op: "aofshrink"}, {op: "del", a: "a", b: "i0"}},
-		3:       {{op: "set", a: "b", b: "i5", v: "w2"}},
-		1000000: {{op: "aofshrink"}, {op: "set", a: "c", b: "i7", v: "w3"}, {op: "del", a: "c", b: "i0"}},
+		-1:        {{op: "set", a: "a", b: "i9", v: "w0"}},
+		2:         {{op: "set", a: "a", b: "i1", v: "w1"}, {op: "aofshrink"}, {op: "del", a: "a", b: "i0"}},
+		3:         {{op: "set", a: "b", b: "i5", v: "w2"}},
+		slotFinal: {{op: "aofshrink"}, {op: "set", a: "c", b: "i7", v: "w3"}, {op: "del", a: "c", b: "i0"}},
 	}
 	out := []schedule{a, b, c, d}
+	fvp := func(i int) *fv { return &fvPool[i%len(fvPool)] }
+	fence := []string{"NEARBY", "fencekey", "FENCE", "POINT", "1", "2", "500"}
+	// fields and deadlines around the cursor: FSET / EXPIRE / PERSIST / PDEL / SET with FIELDs
+	var w schedule
+	w.name = "witness-fields-deadlines"
+	for _, k := range []string{"a", "b", "c"} {
+		for i := 0; i < 4; i++ {
+			w.Init = append(w.Init, mcmd{op: "set", a: k, b: fmt.Sprintf("i%d", i), v: "v", ex: i%2 == 1,
+				fs: []fu{{"speed", fvp(i)}, {"a", fvp(i + 2)}}})
+		}
+	}
+	w.Before = map[int][]mcmd{
+		-1: {{op: "fset", a: "a", b: "i0", fs: []fu{{"speed", nil}, {"Zeta", fvp(3)}}}, {op: "expire", a: "c", b: "i0"}},
+		2: {{op: "fset", a: "a", b: "i1", fs: []fu{{"b", fvp(5)}}}, {op: "persist", a: "a", b: "i1"}, {op: "expire", a: "a", b: "i2"},
+			{op: "fset", a: "b", b: "i1", fs: []fu{{"a", nil}, {"n0", fvp(0)}}}, {op: "persist", a: "b", b: "i3"},
+			{op: "set", a: "a", b: "i3", v: "v2", fs: []fu{{"a", nil}, {"b", fvp(1)}}},
+			{op: "fset", a: "a", b: "nosuch", fs: []fu{{"a", fvp(1)}}}, {op: "fset", a: "nokey", b: "i0", fs: []fu{{"a", fvp(1)}}}},
+		3: {{op: "pdel", a: "a", b: "i"}, {op: "pdel", a: "c", b: "i1"}, {op: "set", a: "a", b: "i2", v: "back", ex: true, fs: []fu{{"speed", fvp(6)}}},
+			{op: "fset", a: "a", b: "i2", fs: []fu{{"speed", fvp(6)}}}, {op: "fset", a: "c", b: "i2", fs: []fu{{"Zeta", fvp(7)}}}},
+		slotFinal: {{op: "persist", a: "a", b: "i2"}, {op: "expire", a: "b", b: "i0"}, {op: "fset", a: "b", b: "i0", fs: []fu{{"speed", fvp(4)}}}},
+	}
+	// hooks and channels with META and EX, changed during the scan and during the hooks phase
+	var h schedule
+	h.name = "witness-hooks"
+	h.Init = []mcmd{{op: "set", a: "a", b: "1", v: "x"}, {op: "set", a: "b", b: "1", v: "x"},
+		{op: "sethook", a: "hook1", eps: "http://127.0.0.1:1/x", metas: [][2]string{{"owner", "o 1"}, {"zone", "north"}}, fence: fence},
+		{op: "sethook", a: "hook2", eps: "http://127.0.0.1:1/a,http://127.0.0.1:2/b", ex: true, fence: fence},
+		{op: "setchan", a: "chan1", metas: [][2]string{{"m", "1"}}, ex: true, fence: fence},
+		{op: "setchan", a: "chan2", fence: fence}, {op: "sethook", a: "hook3", eps: "http://127.0.0.1:1/x", fence: fence}}
+	h.Before = map[int][]mcmd{
+		1:         {{op: "sethook", a: "hook0", eps: "http://127.0.0.1:1/new", fence: fence}, {op: "delchan", a: "chan2"}, {op: "delhook", a: "chan1"}},
+		3:         {{op: "sethook", a: "hook1", eps: "http://127.0.0.1:1/x", metas: [][2]string{{"owner", "o 2"}}, fence: fence}},                                   // hooknames gate
+		4:         {{op: "delhook", a: "hook2"}, {op: "setchan", a: "chan0", fence: fence}, {op: "sethook", a: "hook3", eps: "http://127.0.0.1:1/x", fence: fence}}, // first hook gate
+		5:         {{op: "pdelhook", a: "hook3"}, {op: "sethook", a: "hook9", eps: "http://127.0.0.1:1/x", ex: true, fence: fence}},
+		slotFinal: {{op: "pdelchan", a: "chan0"}, {op: "aofshrink"}},
+	}
+	// a name that is a hook, is deleted and comes back as a channel while the rewrite runs
+	var ks schedule
+	ks.name = "witness-hook-kind-switch"
+	ks.Init = []mcmd{{op: "set", a: "a", b: "1", v: "x"}}
+	ks.Before = map[int][]mcmd{0: {{op: "sethook", a: "x", eps: "http://127.0.0.1:1/x", fence: fence}, {op: "delhook", a: "x"}, {op: "setchan", a: "x", fence: fence}}}
+	out = append(out, w, h, ks)
 	// an interrupted rewrite leaves files behind; the dataset shrinks; the next rewrite completes
 	for _, cp := range []string{"after-sync", "after-rename-bak", "before-append"} {
 		var e schedule
@@ -1217,6 +1254,51 @@ func genSchedule(rng *rand.Rand, withRename bool) schedule {
 		}
 		return fmt.Sprintf("k%02d", j)
 	}
+	genFus := func(max int) []fu {
+		var fs []fu
+		n := rng.Intn(max + 1)
+		for i := 0; i < n; i++ {
+			f := fu{name: fnames[rng.Intn(len(fnames))]}
+			if rng.Intn(4) != 0 {
+				f.val = &fvPool[rng.Intn(len(fvPool))]
+			}
+			fs = append(fs, f)
+		}
+		return fs
+	}
+	fence := []string{"NEARBY", "fencekey", "FENCE", "POINT", "1", "2", "500"}
+	if rng.Intn(2) == 0 {
+		fence = []string{"WITHIN", "fencekey", "FENCE", "DETECT", "enter,exit", "BOUNDS", "-10", "-10", "10", "10"}
+	}
+	genHookCmd := func() mcmd {
+		ch := rng.Intn(3) == 0
+		name := fmt.Sprintf("hook%d", rng.Intn(5))
+		if ch {
+			name = fmt.Sprintf("chan%d", rng.Intn(3))
+		}
+		switch rng.Intn(6) {
+		case 0:
+			if ch {
+				return mcmd{op: "delchan", a: name}
+			}
+			return mcmd{op: "delhook", a: name}
+		case 1:
+			if ch {
+				return mcmd{op: "pdelchan", a: []string{"chan", "chan1", "x"}[rng.Intn(3)]}
+			}
+			return mcmd{op: "pdelhook", a: []string{"hook", "hook2", "x"}[rng.Intn(3)]}
+		}
+		m := mcmd{op: "sethook", a: name, eps: []string{"http://127.0.0.1:1/x", "http://127.0.0.1:1/a,http://127.0.0.1:2/b"}[rng.Intn(2)], fence: fence, ex: rng.Intn(3) == 0}
+		if ch {
+			m.op, m.eps = "setchan", ""
+		}
+		for _, k := range []string{"owner", "zone"} {
+			if rng.Intn(3) == 0 {
+				m.metas = append(m.metas, [2]string{k, []string{"north", "a b", "42"}[rng.Intn(3)]})
+			}
+		}
+		return m
+	}
 	big := rng.Intn(ncols)
 	for j := 0; j < ncols; j++ {
 		n := 1 + rng.Intn(4)
@@ -1224,13 +1306,19 @@ func genSchedule(rng *rand.Rand, withRename bool) schedule {
 			n = 30 + rng.Intn(45)
 		}
 		for i := 0; i < n; i++ {
-			sc.Init = append(sc.Init, mcmd{op: "set", a: keyOf(j), b: fmt.Sprintf("i%02d", i), v: fmt.Sprintf("v%d", rng.Intn(1000))})
+			sc.Init = append(sc.Init, mcmd{op: "set", a: keyOf(j), b: fmt.Sprintf("i%02d", i), v: fmt.Sprintf("v%d", rng.Intn(1000)),
+				fs: genFus(2), ex: rng.Intn(5) == 0})
 		}
 	}
 	rng.Shuffle(len(sc.Init), func(i, j int) { sc.Init[i], sc.Init[j] = sc.Init[j], sc.Init[i] })
+	for i, n := 0, rng.Intn(5); i < n; i++ {
+		if m := genHookCmd(); m.op == "sethook" || m.op == "setchan" {
+			sc.Init = append(sc.Init, m)
+		}
+	}
 	sc.Before = map[int][]mcmd{}
-	slots := []int{-1, 1000000}
-	for s := 0; s < 40; s++ {
+	slots := []int{-1, slotFinal}
+	for s := 0; s < 45; s++ {
 		slots = append(slots, s)
 	}
 	nslots := 3 + rng.Intn(12)
@@ -1244,25 +1332,45 @@ func genSchedule(rng *rand.Rand, withRename bool) schedule {
 			k := keyOf(rng.Intn(ncols + 3))
 			id := fmt.Sprintf("i%02d", rng.Intn(50))
 			var m mcmd
-			switch x := rng.Intn(12); {
-			case x < 5:
-				m = mcmd{op: "set", a: k, b: id, v: fmt.Sprintf("w%d", rng.Intn(1000))}
-			case x < 8:
-				m = mcmd{op: "del", a: k, b: id}
+			switch x := rng.Intn(24); {
+			case x < 6:
+				m = mcmd{op: "set", a: k, b: id, v: fmt.Sprintf("w%d", rng.Intn(1000)), fs: genFus(2), ex: rng.Intn(4) == 0}
 			case x < 10:
+				m = mcmd{op: "fset", a: k, b: id, fs: genFus(2)}
+				if len(m.fs) == 0 {
+					m.fs = []fu{{"speed", &fvPool[0]}}
+				}
+			case x < 12:
+				m = mcmd{op: "expire", a: k, b: id}
+			case x < 14:
+				m = mcmd{op: "persist", a: k, b: id}
+			case x < 16:
+				m = mcmd{op: "del", a: k, b: id}
+			case x < 18:
+				m = mcmd{op: "pdel", a: k, b: []string{"i0", "i1", "i4", "i", "i03", "zz"}[rng.Intn(6)]}
+			case x < 19:
 				m = mcmd{op: "drop", a: k}
-			case x == 10 && rng.Intn(4) == 0:
+			case x < 22:
+				m = genHookCmd()
+			case x == 22 && rng.Intn(4) == 0:
 				m = mcmd{op: "flushdb"}
-			case x == 10:
+			case x == 22:
 				m = mcmd{op: "aofshrink"}
 			default:
 				if withRename {
 					m = mcmd{op: "rename", a: k, b: keyOf(rng.Intn(ncols + 3))}
 				} else {
-					m = mcmd{op: "set", a: k, b: id, v: "z"}
+					m = mcmd{op: "fset", a: k, b: id, fs: []fu{{"n0", &fvPool[rng.Intn(len(fvPool))]}}}
 				}
 			}
 			sc.Before[slot] = append(sc.Before[slot], m)
+		}
+	}
+	// hook commands while the hooks phase itself is running (its gates follow the scan: step
+	// numbers are not known in advance, so a band of slots is filled)
+	if rng.Intn(2) == 0 {
+		for s := 8; s < 40; s += 1 + rng.Intn(4) {
+			sc.Before[s] = append(sc.Before[s], genHookCmd())
 		}
 	}
 	// every schedule asks for another rewrite at least once while the first is parked
@@ -1322,6 +1430,48 @@ func jsonWitness(r *hx.Result, cfg hx.Config, which string) {
 	cs["after_restart"] = restarted
 	if live != restarted {
 		r.Fail(hx.Failure{Kind: "oracle", Signature: "shrink-" + which + "-replayed-twice", What: fmt.Sprintf("%s during AOFSHRINK: live document %s, after restart %s", strings.Join(w, " "), live, restarted), Case: cs})
+	}
+}
+
+// ---------------------------------------------------------------- scenario: RENAME + hook on the new name
+
+// renameHookWitness: a collection is written to the snapshot, renamed, and a hook is then set on
+// its new name; the hooks phase writes the hook, and the RENAME record of the shrinklog is
+// refused on replay with "key has hooks set" - an error loadAOF treats as fatal.
+func renameHookWitness(r *hx.Result, cfg hx.Config) {
+	dir := filepath.Join(cfg.Work, "rh")
+	os.RemoveAll(dir)
+	in := startInst(cfg.Work, dir)
+	defer func() { in.close() }()
+	in.c.MustDo("SET", "A", "1", "STRING", "x")
+	cmds := [][]string{{"RENAME", "A", "B"}, {"SETHOOK", "h", "http://127.0.0.1:1/x", "NEARBY", "B", "FENCE", "POINT", "1", "2", "500"}}
+	_, e := in.shrinkWith("hooknames", func(ev event) bool {
+		if ev.kind == "hooknames" {
+			for _, c := range cmds {
+				in.c.MustDo(c...)
+			}
+		}
+		return true
+	})
+	cs := map[string]interface{}{"scenario": "rename-hook-witness", "init": "SET A 1 STRING x", "at_hooknames_gate": []string{"RENAME A B", "SETHOOK h http://127.0.0.1:1/x NEARBY B FENCE POINT 1 2 500"}}
+	if e != "" {
+		r.Fail(hx.Failure{Kind: "oracle", Signature: "shrink-did-not-finish", What: "AOFSHRINK did not finish: " + e, Case: cs})
+		return
+	}
+	live := dumpFull(in.c)
+	in.stop()
+	r.Count("rename-hook", true)
+	r.Dist("scenario:rename-hook-witness")
+	in2, err := startInstE(cfg.Work, dir)
+	if err != nil {
+		in = &inst{s: in.s, dir: dir}
+		r.Fail(hx.Failure{Kind: "oracle", Signature: "shrink-rename-hook-fatal", What: "RENAME A B followed by SETHOOK on B after A was written to the snapshot: the server does not start on the new file: " + lastLines(err.Error(), 260), Case: cs})
+		return
+	}
+	in = in2
+	if again := dumpFull(in.c); again != live {
+		a, b := diffLines(live, again)
+		r.Fail(hx.Failure{Kind: "oracle", Signature: "shrink-rename-hook-stale", What: "RENAME A B followed by SETHOOK on B after A was written to the snapshot: after restart the collection is still called A", Case: cs, Impl: map[string]interface{}{"only_live": clip(a, 4), "only_after_restart": clip(b, 4)}})
 	}
 }
 
@@ -1520,6 +1670,7 @@ func runC09(r *hx.Result, cfg hx.Config) {
 	}
 	guard("jset-append", func() { jsonWitness(r, cfg, "jset-append") })
 	guard("jdel-index", func() { jsonWitness(r, cfg, "jdel-index") })
+	guard("rename-hook", func() { renameHookWitness(r, cfg) })
 	// 2. crash points
 	cps := strings.Split(drv.Ask("cpoints"), ",")
 	crashPoints = cps
